@@ -176,6 +176,82 @@ func fragRun(src string, rsize int, vec []uint64) (outs []uint64, err error) {
 	return outs, nil
 }
 
+type fragItem struct {
+	g fragGraph
+	m []fragMapping
+}
+
+func fragVectors(rsize int) [][]uint64 {
+	mod := uint64(1) << uint(rsize)
+	return [][]uint64{{5, 7}, {0, mod - 1}, {mod - 56, 100}}
+}
+
+// genFragGraphs runs TLC -simulate on FragGraph and returns the graphs with the mappings visited.
+func genFragGraphs(r *evid.Run, scratch string, rsize, ninst, nout, nremap, n int, seed int64) (items []fragItem, transitions int64, ok bool) {
+	big := ninst > 6
+	dir := filepath.Join(scratch, fmt.Sprintf("g_%d_%d_%d", rsize, ninst, nout))
+	os.MkdirAll(dir, 0o755)
+	cfg := fmt.Sprintf("SPECIFICATION Spec\nCONSTANTS\n RSize = %d\n NInst = %d\n NExtOut = %d\n NRemap = %d\n BigGraph = %s\nINVARIANT TypeOK\nPROPERTY MappingIrrelevant\nCHECK_DEADLOCK FALSE\n", rsize, ninst, nout, nremap, strings.ToUpper(fmt.Sprint(big)))
+	res, err := tlc.Run(tlc.Options{SpecDir: specDir, Module: "FragGraph", CfgText: cfg, Workers: 1, Timeout: 20 * time.Minute,
+		Args: []string{"-simulate", fmt.Sprintf("file=%s/b,num=%d", dir, n), "-depth", strconv.Itoa(ninst + nout + nremap + 3), "-seed", strconv.FormatInt(seed, 10)}})
+	if err != nil {
+		r.Inconclusive("tlc simulate: %v", err)
+		return nil, 0, false
+	}
+	if res.Violation != "" {
+		r.Inconclusive("TLC rejects FragGraph: %s %s", res.Violation, res.ViolationName)
+		return nil, 0, false
+	}
+	files, _ := filepath.Glob(filepath.Join(dir, "b_*"))
+	sort.Strings(files)
+	for _, f := range files {
+		beh, err := tlc.ParseSimFile(f)
+		if err != nil || len(beh) == 0 {
+			r.Inconclusive("parse %s: %v", f, err)
+			return nil, 0, false
+		}
+		last := beh[len(beh)-1].Vars
+		if tlaval.Str(last["phase"]) != "mapped" {
+			continue
+		}
+		it := fragItem{g: fragGraph{RSize: rsize}}
+		for _, iv := range tlaval.AsSeq(last["inst"]) {
+			rec := tlaval.AsRec(iv)
+			in := fragInst{F: tlaval.Str(rec["f"])}
+			for _, s := range tlaval.AsSeq(rec["src"]) {
+				in.Src = append(in.Src, parseSrc(s))
+			}
+			it.g.Inst = append(it.g.Inst, in)
+		}
+		for _, s := range tlaval.AsSeq(last["outs"]) {
+			it.g.Outs = append(it.g.Outs, parseSrc(s))
+		}
+		for _, rv := range tlaval.AsSeq(last["result"]) {
+			var row []uint64
+			for _, x := range tlaval.AsSeq(rv) {
+				row = append(row, uint64(tlaval.Int(x)))
+			}
+			it.g.Result = append(it.g.Result, row)
+		}
+		seen := map[string]bool{}
+		for _, st := range beh {
+			if tlaval.Str(st.Vars["phase"]) != "mapped" {
+				continue
+			}
+			m := fragMapping{Group: ints(st.Vars["group"]), Perm: ints(st.Vars["perm"])}
+			key := fmt.Sprint(m)
+			if !seen[key] {
+				seen[key] = true
+				it.m = append(it.m, m)
+			}
+		}
+		items = append(items, it)
+		transitions += int64(len(beh))
+	}
+	os.RemoveAll(dir)
+	return items, transitions, true
+}
+
 func runC06(r *evid.Run) {
 	scratch, err := os.MkdirTemp("", "bmverif-c06-")
 	if err != nil {
@@ -183,79 +259,14 @@ func runC06(r *evid.Run) {
 		return
 	}
 	defer os.RemoveAll(scratch)
-	type item struct {
-		g fragGraph
-		m []fragMapping
-	}
-	var items []item
+	var items []fragItem
 	var transitions int64
-	vectors := func(rsize int) [][]uint64 {
-		mod := uint64(1) << uint(rsize)
-		return [][]uint64{{5, 7}, {0, mod - 1}, {mod - 56, 100}}
-	}
+	vectors := fragVectors
 	gen := func(rsize, ninst, nout, nremap, n int, seed int64) bool {
-		big := ninst > 6
-		dir := filepath.Join(scratch, fmt.Sprintf("g_%d_%d_%d", rsize, ninst, nout))
-		os.MkdirAll(dir, 0o755)
-		cfg := fmt.Sprintf("SPECIFICATION Spec\nCONSTANTS\n RSize = %d\n NInst = %d\n NExtOut = %d\n NRemap = %d\n BigGraph = %s\nINVARIANT TypeOK\nPROPERTY MappingIrrelevant\nCHECK_DEADLOCK FALSE\n", rsize, ninst, nout, nremap, strings.ToUpper(fmt.Sprint(big)))
-		res, err := tlc.Run(tlc.Options{SpecDir: specDir, Module: "FragGraph", CfgText: cfg, Workers: 1, Timeout: 20 * time.Minute,
-			Args: []string{"-simulate", fmt.Sprintf("file=%s/b,num=%d", dir, n), "-depth", strconv.Itoa(ninst + nout + nremap + 3), "-seed", strconv.FormatInt(seed, 10)}})
-		if err != nil {
-			r.Inconclusive("tlc simulate: %v", err)
-			return false
-		}
-		if res.Violation != "" {
-			r.Inconclusive("TLC rejects FragGraph: %s %s", res.Violation, res.ViolationName)
-			return false
-		}
-		files, _ := filepath.Glob(filepath.Join(dir, "b_*"))
-		sort.Strings(files)
-		for _, f := range files {
-			beh, err := tlc.ParseSimFile(f)
-			if err != nil || len(beh) == 0 {
-				r.Inconclusive("parse %s: %v", f, err)
-				return false
-			}
-			last := beh[len(beh)-1].Vars
-			if tlaval.Str(last["phase"]) != "mapped" {
-				continue
-			}
-			it := item{g: fragGraph{RSize: rsize}}
-			for _, iv := range tlaval.AsSeq(last["inst"]) {
-				rec := tlaval.AsRec(iv)
-				in := fragInst{F: tlaval.Str(rec["f"])}
-				for _, s := range tlaval.AsSeq(rec["src"]) {
-					in.Src = append(in.Src, parseSrc(s))
-				}
-				it.g.Inst = append(it.g.Inst, in)
-			}
-			for _, s := range tlaval.AsSeq(last["outs"]) {
-				it.g.Outs = append(it.g.Outs, parseSrc(s))
-			}
-			for _, rv := range tlaval.AsSeq(last["result"]) {
-				var row []uint64
-				for _, x := range tlaval.AsSeq(rv) {
-					row = append(row, uint64(tlaval.Int(x)))
-				}
-				it.g.Result = append(it.g.Result, row)
-			}
-			seen := map[string]bool{}
-			for _, st := range beh {
-				if tlaval.Str(st.Vars["phase"]) != "mapped" {
-					continue
-				}
-				m := fragMapping{Group: ints(st.Vars["group"]), Perm: ints(st.Vars["perm"])}
-				key := fmt.Sprint(m)
-				if !seen[key] {
-					seen[key] = true
-					it.m = append(it.m, m)
-				}
-			}
-			items = append(items, it)
-			transitions += int64(len(beh))
-		}
-		os.RemoveAll(dir)
-		return true
+		its, tr, ok := genFragGraphs(r, scratch, rsize, ninst, nout, nremap, n, seed)
+		items = append(items, its...)
+		transitions += tr
+		return ok
 	}
 	if !gen(8, 3, 2, 4, r.Pick(40, 300), r.Seed*5+1) || !gen(16, 4, 2, 5, r.Pick(25, 250), r.Seed*5+2) || !gen(8, 5, 3, 6, r.Pick(10, 150), r.Seed*5+3) ||
 		!gen(16, 26, 2, 4, r.Pick(16, 150), r.Seed*5+4) {
